@@ -106,6 +106,11 @@ register(
         "GtModel.C15.filter_removes_exactly_missing",
         "GtModel.C15.validate_sound",
         "GtModel.C15.recorded_answer_meets_contract",
+        # totality: returns on the admitted domain; the three raising branches and their causes
+        "GtModel.C15.prepare_ok_on_domain",
+        "GtModel.C15.minWeight_ok_on_domain",
+        "GtModel.C15.minWeight_valid_on_domain",
+        "GtModel.C15.error_domain",
     ],
     streams=["assign"],
     gen=gen,
@@ -120,10 +125,24 @@ register(
         "float weights are compared as exact rationals (scaled to integers by a power of two); float column sums "
         "are assumed exact (the generator only emits dyadic rationals for which they are)",
         "NaN / inf weights are excluded",
+        "ADMITTED DOMAIN of 'returns a valid, optimal pairing' (GtModel.C15.minWeight_ok_on_domain): weights >= 0 and "
+        "finite, one Python type per table, and for int tables every weight and (when a pair is missing) the sentinel "
+        "max column sum + 1 below 2^63; for float tables every weight and column sum below 2^53 (so that the sentinel's "
+        "+1 and the column sums are exact in float64).  Tables with an int weight / sentinel >= 2^63 (numpy "
+        "OverflowError from 2^64 on, or with any negative weight) and float tables with |w| or a column sum >= 2^53 "
+        "(real code: AssertionError on [[2.0**53, None]], the model returns: model != code there) are OUTSIDE",
+        "the solver (scipy) itself returns on every finite matrix it is shown (the model's solver is a total function)",
     ],
     trusted=[
         "numpy: np.array(list_of_python_numbers, dtype=d) is lossless whenever every number lies in np.iinfo(d) "
         "(the shown matrix is compared with the model's on every case); np.array(x, dtype=bool) maps non-zero to True",
         "the translator harness/props/c15.py (np.iinfo, str(dtype))",
     ],
+    partial="validity and optimality are proved for the value the function returns; THAT it returns is proved on the "
+    "admitted domain only (minWeight_ok_on_domain: weights >= 0, one type, int weights and sentinel < 2^63); outside it "
+    "the three raising branches are characterised (error_domain) but nothing is claimed about the result.  Tables with "
+    "|w| >= 2^53 (float) or >= 2^63 (int), negative weights next to missing pairs, NaN / inf are outside: on float tables "
+    "at 2^53 the model's exact arithmetic and float64 differ ([[2.0**53, None]] raises AssertionError in the code, the "
+    "model returns) and no stream generates them.  That a minimiser exists for every matrix (forall d, exists a, "
+    "Contract d a) is not proved; optimality of scipy's answer is validated only up to 6x6 (model) / 8x8 (monitor)",
 )
